@@ -23,8 +23,11 @@ ASSUMPTIONS = [
     "SHARED side (what the device's token detector / handshake detector / transmitter drive), outputs = one endpoint's interface; sliced to "
     "the cone of those outputs (the other endpoint is then outside the cone: structurally it cannot influence them; what remains is the "
     "influence of the shared inputs, which is what the theorem is about)",
-    "complete-device runs: USBDevice on a UTMI bus with standard control endpoint, USBStreamInEndpoint(1, mps 8), USBStreamOutEndpoint(2, mps 8), "
-    "USBSignalInEndpoint(3, 16 bit); host scripts mix IN/OUT/PING transactions (with lost ACKs, NAKed polls, wrong data toggles, bad CRCs) on all "
+    "endpoint numbers: every configuration uses numbers from the top half of the 4-bit range next to n - 8 / n + 8 (multiplexer targets: status "
+    "endpoints 9|1, 2|10, 15|7; stream IN 9 next to status 1; tokens for n, its neighbour and n ^ 8 in every alphabet), so that a comparison "
+    "that ignores a bit of tokenizer.endpoint is visible",
+    "complete-device runs: USBDevice on a UTMI bus with standard control endpoint, USBStreamInEndpoint(9, mps 8), USBStreamOutEndpoint(15, mps 8), "
+    "USBSignalInEndpoint(11, 16 bit); the host also addresses endpoints 1, 7, 3 (= n - 8, no function there); host scripts mix IN/OUT/PING transactions (with lost ACKs, NAKed polls, wrong data toggles, bad CRCs) on all "
     "endpoints with GET_STATUS / GET_DESCRIPTOR control transfers; SET_ADDRESS / SET_CONFIGURATION / CLEAR_FEATURE are not mixed in (they "
     "legitimately act on other endpoints; see C08, C14)",
 ]
@@ -34,9 +37,9 @@ TIE_IMPORTS = "From LunaModel Require Import SignalIn SignalIn_proofs C12_EpIsol
 # ------------------------------------------------------------------------------------------------------
 # targets: multiplexer + two status endpoints, observed at endpoint `ep`
 # ------------------------------------------------------------------------------------------------------
-def mk_mux(W, big, ep, first):
-    """ep: the observed endpoint's number (the other one gets 3 - ep); first: is the observed endpoint added to the multiplexer first"""
-    other = 3 - ep
+def mk_mux(W, big, ep, other, first):
+    """ep: the observed endpoint's number; other: the second endpoint's number (configurations pair n with n +- 8 so that a comparison that
+    drops bit 3 of the 4-bit endpoint number is visible); first: is the observed endpoint added to the multiplexer first"""
 
     def build():
         from amaranth import Elaboratable, Module
@@ -67,9 +70,8 @@ def mk_mux(W, big, ep, first):
     return t
 
 
-def mk_mux_stream(mps, ep):
-    """multiplexer + USBStreamInEndpoint(ep, mps) + a status endpoint (number 3 - ep); observed: the stream endpoint"""
-    other = 3 - ep
+def mk_mux_stream(mps, ep, other):
+    """multiplexer + USBStreamInEndpoint(ep, mps) + a status endpoint (number `other`); observed: the stream endpoint"""
 
     def build():
         from amaranth import Elaboratable, Module
@@ -101,10 +103,9 @@ def mk_mux_stream(mps, ep):
 
 
 def targets(tier):
-    cfgs = [(1, False, 1, True), (8, True, 2, False)] if tier == "quick" else \
-           [(1, False, 1, True), (8, True, 2, False), (8, False, 1, True), (12, True, 1, False)]
-    extra = [mk_mux_stream(1, 1)] if (tier != "quick" or os.environ.get("C12_STREAM")) else []
-    return [mk_mux(*c) for c in cfgs] + extra
+    cfgs = [(1, False, 9, 1, True), (8, True, 2, 10, False)] if tier == "quick" else \
+           [(1, False, 9, 1, True), (8, True, 2, 10, False), (8, False, 1, 2, True), (12, True, 15, 7, False)]
+    return [mk_mux(*c) for c in cfgs] + [mk_mux_stream(1, 9, 1)]
 
 
 def traces(target, rng, tier):
@@ -124,7 +125,7 @@ def traces(target, rng, tier):
         is_in = 0
         for _ in range(rng.randint(2, 10)):
             for _ in range(rng.randint(0, 3)): tr.append(cyc(is_in=is_in))
-            cur_ep = rng.choice([ep, ep, p["other"], p["other"], rng.randrange(16)])
+            cur_ep = rng.choice([ep, ep, p["other"], p["other"], ep ^ 8, rng.randrange(16)])
             is_in = int(rng.random() < 0.85)
             tr.append(cyc(is_in=is_in, new_token=1))
             for _ in range(rng.randint(1, 3)): tr.append(cyc(is_in=is_in))
@@ -155,7 +156,7 @@ def stream_traces(target, rng, tier):
             c.update(kw); return c
         for _ in range(rng.randint(2, 10)):
             for _ in range(rng.randint(0, 3)): tr.append(cyc())
-            cur_ep = rng.choice([ep, ep, p["other"], rng.randrange(16)]); is_in = int(rng.random() < 0.9)
+            cur_ep = rng.choice([ep, ep, p["other"], ep ^ 8, rng.randrange(16)]); is_in = int(rng.random() < 0.9)
             tr.append(cyc(new_token=1))
             for _ in range(rng.randint(2, 4)): tr.append(cyc())
             tr.append(cyc(ready_for_response=1))
@@ -194,6 +195,23 @@ def obligations(targets, tier):
             alpha = (f"flat_map (fun d => flat_map (fun e => map (fun c => d + 1024 * e + 16384 + 32768 * c) (range_bits 4)) "
                      f"[{ep}; {p['other']}]) [{'; '.join(map(str, data))}]")
             G = t.modname
+            # referee, every tier, no environment assumption: NAK / start of a transmission only for an IN token carrying exactly this number
+            oeps = []
+            for x in ((ep, ep ^ 8) if tier == "quick" else (ep, p["other"], ep ^ 8)):
+                if x not in oeps: oeps.append(x)
+            odata = [0, 1 + 2 + 4 * 0xA5, 1]
+            oalpha = (f"flat_map (fun d => flat_map (fun e => map (fun c => d + 1024 * e + 16384 * c) (range_bits 5)) "
+                      f"[{'; '.join(map(str, oeps))}]) [{'; '.join(map(str, odata))}]")
+            obs.append(tie.rmon(
+                f"ob_own_{t.name}", t, mon=f"(sin_own_mon {ep})", m0="0", alpha_bits=0, alphabet=oalpha, fuel=3000,
+                describe=f"USBEndpointMultiplexer + USBStreamInEndpoint(number={ep}, max_packet_size={p['mps']}): the endpoint requests a NAK, or starts "
+                         f"a transmission, only in (resp. right after) a cycle with tokenizer.endpoint == {ep} & is_in & ready_for_response; all "
+                         f"traces (no environment assumption) over tokenizer.endpoint in {oeps}, every is_in/ready_for_response/new_token/ack/"
+                         f"tx.ready pattern, stream words (valid/last/payload) {[hex(x) for x in odata]}"))
+            obs.append(tie.cmon(f"cmon_own_{t.name}", t, mon=f"(sin_own_mon {ep})", m0="0",
+                                describe="the same referee over simulator traces with unrestricted endpoint numbers and payloads"))
+            if tier == "quick" and not os.environ.get("C12_STREAM"):
+                continue
             obs.append(tie.rmon(
                 f"ob_{t.name}", t, mon=f"sc_mon {G}.step (sin_proj {ep}) sin_norm sin_legal sin_aux",
                 m0=f"(sin_aux0 + AUXR * {G}.init)", alpha_bits=0, alphabet=alpha, fuel=3000,
@@ -206,7 +224,9 @@ def obligations(targets, tier):
             continue
         p = t.params; W = p["W"]; ep = p["ep"]; big = coqb(p["big"])
         sigs = sig_values(W, tier)
-        eps = [ep, p["other"], 0] + ([ep ^ 8, 15] if tier != "quick" else [])
+        eps = []
+        for x in [ep, p["other"], ep ^ 8, 0] + ([p["other"] ^ 8, 15] if tier != "quick" else []):     # n, the neighbour, n +- 8, ...
+            if x not in eps: eps.append(x)
         alpha = (f"flat_map (fun s => flat_map (fun e => map (fun c => s + 2 ^ {W} * (e + 16 * c)) (range_bits 5)) "
                  f"[{'; '.join(map(str, eps))}]) [{'; '.join(map(str, sigs))}]")
         desc = (f"USBEndpointMultiplexer + USBSignalInEndpoint(width={W}, number={ep}, {'big' if p['big'] else 'little'}) + "
@@ -227,6 +247,8 @@ def tie_theorems(targets, tier):
     s = ""
     for t in targets:
         if getattr(t, "stream", False):
+            if tier == "quick" and not os.environ.get("C12_STREAM"):
+                continue
             G = t.modname; ep = t.params["ep"]
             s += f"""
 Theorem C12_{t.name} : forall tr, Forall (fun i => In i ob_{t.name}.alpha) tr ->
@@ -255,13 +277,19 @@ Qed.
 
 
 def tie_theorem_names(targets, tier):
-    return [f"C12_{t.name}" for t in targets]
+    return [f"C12_{t.name}" for t in targets
+            if not (getattr(t, "stream", False) and tier == "quick" and not os.environ.get("C12_STREAM"))]
 
 
 # ------------------------------------------------------------------------------------------------------
 # complete device: differential runs, mixed host script vs. its projection on each endpoint
 # ------------------------------------------------------------------------------------------------------
 from props.C08 import token, datapkt, pidb, P, descriptors   # packet construction helpers (pure Python)
+
+
+# endpoint numbers of the complete device: top half of the 4-bit range; the host also addresses n - 8 (no function there)
+E_IN, E_OUT, E_SIG = 9, 15, 11
+E_ALL = (E_IN, E_OUT, E_SIG)
 
 
 def build_full():
@@ -272,9 +300,9 @@ def build_full():
     u = UTMIInterface()
     d = USBDevice(bus=u)
     d.add_standard_control_endpoint(descriptors())
-    e1 = USBStreamInEndpoint(endpoint_number=1, max_packet_size=8)
-    e2 = USBStreamOutEndpoint(endpoint_number=2, max_packet_size=8)
-    e3 = USBSignalInEndpoint(width=16, endpoint_number=3, endianness="big")
+    e1 = USBStreamInEndpoint(endpoint_number=E_IN, max_packet_size=8)
+    e2 = USBStreamOutEndpoint(endpoint_number=E_OUT, max_packet_size=8)
+    e3 = USBSignalInEndpoint(width=16, endpoint_number=E_SIG, endianness="big")
     for e in (e1, e2, e3):
         d.add_endpoint(e)
     ins = dict(rx_active=u.rx_active, rx_valid=u.rx_valid, rx_data=u.rx_data, line_state=u.line_state, connect=d.connect,
@@ -293,7 +321,7 @@ def build_full():
         if kind == "sig":
             o += [("status_read_complete", e.status_read_complete)]
         return o
-    obs = {1: ep_obs(e1, "in"), 2: ep_obs(e2, "out"), 3: ep_obs(e3, "sig")}
+    obs = {E_IN: ep_obs(e1, "in"), E_OUT: ep_obs(e2, "out"), E_SIG: ep_obs(e3, "sig")}
     wire = dict(tx_valid=u.tx_valid, tx_data=u.tx_data, s1_ready=e1.stream.ready)
     return d, ins, obs, wire
 
@@ -311,7 +339,7 @@ class MixedHost:
     """closed-loop host + local stimulus; records per cycle the input word and the endpoint whose transaction the cycle belongs to"""
     def __init__(self, rng):
         self.rng = rng
-        self.trace = []; self.owner = []; self.obs = {1: [], 2: [], 3: []}
+        self.trace = []; self.owner = []; self.obs = {e: [] for e in E_ALL}
         self.cur_owner = None
         self.tog_out = 0          # host's DATA toggle for OUT endpoint 2
         self.pending = []         # bytes the stream producer of endpoint 1 still has to hand over: (byte, last)
@@ -347,7 +375,7 @@ class MixedHost:
                 if c["s1_valid"] and ctx.get(wire["s1_ready"]):
                     host.pending.pop(0)
                 host.trace.append(c); host.owner.append(host.cur_owner)
-                for e in (1, 2, 3):
+                for e in E_ALL:
                     host.obs[e].append(norm_obs({n: ctx.get(s) for n, s in obs[e]}))
                 txv = ctx.get(wire["tx_valid"]); txd = ctx.get(wire["tx_data"])
                 await ctx.tick("usb")
@@ -402,7 +430,7 @@ class MixedHost:
             if corrupt: pkt[-1] ^= 0x40
             await self.send(pkt)
             r = await self.recv()
-            if ep == 2 and pid is None and not corrupt and r and r[0] == pidb(P["ACK"]):
+            if ep == E_OUT and pid is None and not corrupt and r and r[0] == pidb(P["ACK"]):
                 self.tog_out ^= 1
         await self.idle(self.rng.choice([1, 2, 4]))
         self.cur_owner = None
@@ -431,25 +459,25 @@ def mixed_script(rng, n):
         for _ in range(n):
             r = rng.random()
             if r < 0.30:
-                await h.in_xact(1, ack=rng.random() < 0.8)
+                await h.in_xact(E_IN, ack=rng.random() < 0.8)
             elif r < 0.55:
                 k = rng.random()
                 if k < 0.15:
-                    await h.out_xact(2, [], ping=True)
+                    await h.out_xact(E_OUT, [], ping=True)
                 elif k < 0.3:
-                    await h.out_xact(2, [rng.randrange(256) for _ in range(rng.choice([1, 8]))], pid=h.tog_out ^ 1)   # wrong toggle (re-sent packet)
+                    await h.out_xact(E_OUT, [rng.randrange(256) for _ in range(rng.choice([1, 8]))], pid=h.tog_out ^ 1)   # wrong toggle (re-sent packet)
                 elif k < 0.4:
-                    await h.out_xact(2, [rng.randrange(256) for _ in range(rng.choice([2, 8]))], corrupt=True)
+                    await h.out_xact(E_OUT, [rng.randrange(256) for _ in range(rng.choice([2, 8]))], corrupt=True)
                 else:
-                    await h.out_xact(2, [rng.randrange(256) for _ in range(rng.choice([0, 1, 3, 8, 8]))])
+                    await h.out_xact(E_OUT, [rng.randrange(256) for _ in range(rng.choice([0, 1, 3, 8, 8]))])
             elif r < 0.8:
-                await h.in_xact(3, ack=rng.random() < 0.75)
+                await h.in_xact(E_SIG, ack=rng.random() < 0.75)
             elif r < 0.88:
                 await h.control_get(rng.choice([0, 6]), 0x0100, rng.choice([2, 18]))
             elif r < 0.94:
-                await h.in_xact(rng.choice([5, 9]))            # endpoint without a function
+                await h.in_xact(rng.choice([E_IN ^ 8, E_SIG ^ 8, E_OUT ^ 8, 5]))            # n - 8: endpoint without a function
             else:
-                await h.out_xact(rng.choice([1, 3, 6]), [1, 2, 3])   # OUT data addressed to an IN endpoint / absent endpoint
+                await h.out_xact(rng.choice([E_IN, E_SIG, E_OUT ^ 8, 6]), [1, 2, 3])   # OUT data addressed to an IN endpoint / to n - 8 / absent endpoint
             await h.idle(rng.choice([0, 1, 3, 10]))
     return script
 
@@ -479,12 +507,12 @@ def correspondence(tier, rng, bdir, cov):
     """differential oracle on the real code: for each mixed run and each non-control endpoint e, the observable signals of e in the
     mixed run must equal, cycle by cycle, those in the run of the projection on e"""
     nruns = 6 if tier == "quick" else 30
-    total = 0; own = {1: 0, 2: 0, 3: 0}
+    total = 0; own = {e: 0 for e in E_ALL}
     for k in range(nruns):
         h = MixedHost(rng)
         h.run(mixed_script(rng, rng.randint(8, 16) if tier == "quick" else rng.randint(10, 30)))
         total += len(h.trace)
-        for e in (1, 2, 3):
+        for e in E_ALL:
             own[e] += sum(1 for o in h.owner if o == e)
             alone = replay_projected(h.trace, h.owner, e)
             for t, (a, b) in enumerate(zip(h.obs[e], alone)):
